@@ -566,7 +566,7 @@ Lemma decorate_seq s1 s2 s p1 p2 :
 Proof.
   intros P H. unfold decorate. cbv zeta.
   rewrite (sig_equiv_dec_keys (de_sig P)), (get_scope_seq H s), (decs_len_seq H).
-  destruct (existsb _ _); cbn [fst snd]; [split; [reflexivity|exact H]|].
+  destruct (negb _ || existsb _ _); cbn [fst snd]; [split; [reflexivity|exact H]|].
   split; [reflexivity|].
   apply SEq_upd_scope. apply SEq_set_decs; [|exact H].
   apply Forall2_app; [apply (se_decs H)|]. constructor; [|constructor].
